@@ -36,6 +36,11 @@ def _f6(case, details):
     return details.get('fast_route') is True and details.get('enforce') is False and details.get('relative_order_differs') is True \
         and str(details.get('why', '')).startswith('reported ')
 
+@signature('lrmsd_long_chain_choice_differs')
+def _f5(case, details):
+    """F5: the two L-RMSD routes disagree, and only with each other, on a pair whose chain sizes are ambiguous"""
+    return details.get('measure') == 'lrmsd' and details.get('lrmsd_fast_vs_sql_only') is True and details.get('ambiguous_chain_sizes') is True
+
 def match(prop, mismatch, active):
     for k in active:
         f = SIGNATURES.get(k['signature'])
